@@ -242,6 +242,9 @@ pub fn run(rep: &Report, models: &[ModelDef], o: &Opts) {
             }
         }
         if o.api_mode == ApiMode::None {
+            if rep.nsamples() < 4 && d.pats.len() >= 2 && i % 13 == 5 {
+                rep.sample(sample_of(d, &ctx, &witnesses, &[], 0));
+            }
             return;
         }
         // --- conformance: witnesses and layer 2 through the real APIs
@@ -285,21 +288,30 @@ pub fn run(rep: &Report, models: &[ModelDef], o: &Opts) {
         }
         api::layer2(&alpha, n, o.span_len.min(n), |h, s, e| case(h, s, e, st));
         st.add("layer2_maxlen_sum", n as u64);
-        if rep.nsamples() < 4 && !witnesses.is_empty() {
-            rep.sample(
-                J::obj()
-                    .set("model", J::s(d.name.clone()))
-                    .set("patterns", J::s(pats_show(&d.pats)))
-                    .set("kind", J::s(d.kind.name()))
-                    .set("ci", J::Bool(d.ci))
-                    .set("representations", J::i(ctx.searchers.len() as i64))
-                    .set("witness_haystacks", J::i(witnesses.len() as i64))
-                    .set("deepest_witness", J::s(json::show(witnesses.iter().max_by_key(|w| w.len()).unwrap())))
-                    .set("layer2_alphabet", J::s(json::show(&alpha)))
-                    .set("layer2_maxlen", J::i(n as i64)),
-            );
+        if rep.nsamples() < 4 && d.pats.len() >= 2 && i % 13 == 5 {
+            rep.sample(sample_of(d, &ctx, &witnesses, &alpha, n));
         }
     });
+}
+
+fn sample_of(d: &ModelDef, ctx: &ModelCtx, witnesses: &[Vec<u8>], alpha: &[u8], n: usize) -> J {
+    let mut j = J::obj()
+        .set("model", J::s(d.name.clone()))
+        .set("patterns", J::s(pats_show(&d.pats)))
+        .set("kind", J::s(d.kind.name()))
+        .set("ci", J::Bool(d.ci))
+        .set("representations", J::Arr(ctx.searchers.iter().take(6).map(|(c, _)| J::s(c.name())).collect()))
+        .set("representations_total", J::i(ctx.searchers.len() as i64))
+        .set("actions", J::s("all 256 byte values from every product state"));
+    if let Some(w) = witnesses.iter().max_by_key(|w| w.len()) {
+        j.put("witness_haystacks", J::i(witnesses.len() as i64));
+        j.put("deepest_witness", J::s(json::show(w)));
+    }
+    if !alpha.is_empty() {
+        j.put("layer2_alphabet", J::s(json::show(alpha)));
+        j.put("layer2_maxlen", J::i(n as i64));
+    }
+    j
 }
 
 fn check_diff_group(ctx: &ModelCtx, rep: &Report, st: &mut Stats, apis: &[Api], h: &[u8], s: usize, e: usize, anchored: bool, pre: bool) {
